@@ -14,7 +14,7 @@ import Mathlib.Tactic.NormNum
 import Mathlib.Algebra.Field.Rat
 
 namespace Pyiga.Props.C07
-open Pyiga.Geo Pyiga.Jet
+open Pyiga.Geo Pyiga.Jet Pyiga.Index
 
 variable {K : Type} [Field K]
 
@@ -148,6 +148,27 @@ theorem jac_column_meaning {X : Type} (S : Spl K) (B : Nat → X → Info K) (ys
   rw [List.getElem?_map, List.getElem?_reverse (by simpa using hm), List.length_range,
     List.getElem?_range (by omega)]
   rfl
+
+
+/-- **NURBS routes agree**: `NurbsFunc.pointwise_eval / pointwise_jacobian` (scattered),
+`__call__` and `grid_eval / grid_jacobian` apply the same quotient formulas to B-spline
+values/Jacobian rows that agree by `routes_agree` / `jac_columns_agree`; hence they return the
+same values and Jacobians, for every source dimension and every number of components. -/
+theorem nurbs_routes_agree {X : Type} [Inhabited X] (S : Spl K) (B : Nat → X → Info K) (pts : List X)
+    (h : Fits B 0 S.dims pts.reverse) :
+    nurbsValue ((List.range S.ncomp).map (S.pwVal B pts))
+      = nurbsValue ((List.range S.ncomp).map (S.gridVal B pts.reverse)) ∧
+    nurbsValue ((List.range S.ncomp).map (S.call B pts))
+      = nurbsValue ((List.range S.ncomp).map (S.gridVal B pts.reverse)) ∧
+    nurbsJacobian ((List.range S.ncomp).map (S.pwVal B pts)) ((List.range S.ncomp).map (S.pwJacRow B pts))
+      = nurbsJacobian ((List.range S.ncomp).map (S.gridVal B pts.reverse))
+          ((List.range S.ncomp).map (S.gridJacRow B pts.reverse)) := by
+  have hv : (List.range S.ncomp).map (S.pwVal B pts) = (List.range S.ncomp).map (S.gridVal B pts.reverse) :=
+    List.map_congr_left (fun j _ => (routes_agree S B pts [] j h).2.1)
+  have hj : (List.range S.ncomp).map (S.pwJacRow B pts) = (List.range S.ncomp).map (S.gridJacRow B pts.reverse) :=
+    List.map_congr_left (fun j _ => jac_columns_agree S B pts j h)
+  refine ⟨by rw [hv], rfl, by rw [hv, hj]⟩
+
 
 /-! ## 3. constructor laws (linearity + partition of unity) -/
 
@@ -465,6 +486,88 @@ theorem tensor_product_model {X : Type} (G1 G2 : Func K) (B : Nat → X → Info
       rw [hs2] at hk2
       exact tensorC_getD G1.npts G1.ncomp G2.npts G2.ncomp G1.c G2.c k1 k2 b hk1 hk2 hb)
     hpu1 hpu2
+
+
+/-- entries of the coefficient list built by `NurbsFunc.__init__` (`mkNurbs`) -/
+theorem mkNurbs_at (dims cshape : List Nat) (C W : List K) (premult : Bool) (I b : Nat)
+    (hI : I < W.length) (hb : b ≤ prod cshape) :
+    (mkNurbs dims cshape C W premult).at (I * (prod cshape + 1) + b)
+      = if b < prod cshape then
+          (if premult then C.getD (I * prod cshape + b) 0 else C.getD (I * prod cshape + b) 0 * W.getD I 0)
+        else W.getD I 0 := by
+  unfold Func.at mkNurbs
+  simp only
+  rw [getD_flatMap_chunks 0 W.length (prod cshape + 1) _ (by intro I; simp) I b hI (by omega)]
+  simp only [List.getD_eq_getElem?_getD]
+  by_cases hb2 : b < prod cshape
+  · rw [if_pos hb2, List.getElem?_append_left (by simpa using hb2)]
+    simp [List.getElem?_range hb2]
+  · have : b = prod cshape := by omega
+    subst this
+    rw [if_neg hb2, List.getElem?_append_right (by simp)]
+    simp
+
+/-- **as_nurbs, on the model's list-level constructor**: `BSplineFunc.as_nurbs()` (weights
+`ones(N)`, premultiplication by 1) evaluated as a NURBS (numerator / weight spline, component by
+component) returns the B-spline's values, at every node, for every sdim (vector-valued `F`). -/
+theorem as_nurbs_model {X : Type} (F : Func K) (m : Nat) (B : Nat → X → Info K) (ys : List X)
+    (hv : F.vshape = [m]) (hl : ys.length = F.dims.length)
+    (hpu : PU (rows B 0 F.dims ys (List.replicate F.dims.length 0))) :
+    nurbsValue ((List.range (m + 1)).map (F.bspAsNurbs.toSpl.gridVal B ys))
+      = (List.range m).map (F.toSpl.gridVal B ys) := by
+  have hnc : F.ncomp = m := by simp [Func.ncomp, hv, Index.prod]
+  have hpm : prod F.vshape = m := by simpa [Func.ncomp] using hnc
+  have hnc' : F.bspAsNurbs.ncomp = m + 1 := by
+    have : F.bspAsNurbs.ncomp = prod F.vshape + 1 := by simp [Func.ncomp, Func.bspAsNurbs, mkNurbs, Index.prod]
+    rw [this, hpm]
+  have hs := size_rows B F.dims ys (List.replicate F.dims.length 0) 0 hl (by simp)
+  have key : ∀ b, b ≤ m → F.bspAsNurbs.toSpl.gridVal B ys b
+      = if b < m then F.toSpl.gridVal B ys b else 1 := by
+    intro b hb
+    show contract F.bspAsNurbs.at F.bspAsNurbs.ncomp b (rows B 0 F.dims ys (List.replicate F.dims.length 0)) 0 = _
+    rw [hnc', contract_eq_nest]
+    have hleaf : ∀ k, k < size (rows B 0 F.dims ys (List.replicate F.dims.length 0)) →
+        F.bspAsNurbs.at (0 * size (rows B 0 F.dims ys (List.replicate F.dims.length 0)) * 1 + k * (m + 1) + b)
+          = if b < m then F.at (k * m + b) else 1 := by
+      intro k hk
+      rw [hs] at hk
+      simp only [Nat.zero_mul, Nat.zero_add]
+      have := mkNurbs_at F.dims F.vshape F.c (List.replicate F.npts 1) false k b (by simpa [Func.npts] using hk)
+        (by rw [hpm]; exact hb)
+      rw [hpm] at this
+      unfold Func.bspAsNurbs
+      rw [this]
+      have h1 : (List.replicate F.npts (1 : K)).getD k 0 = 1 := by
+        simp [List.getD_eq_getElem?_getD, Func.npts, hk]
+      rw [h1]
+      by_cases hbm : b < m
+      · simp [hbm, Func.at]
+      · simp [hbm]
+    by_cases hbm : b < m
+    · rw [if_pos hbm]
+      show _ = contract F.at F.ncomp b (rows B 0 F.dims ys (List.replicate F.dims.length 0)) 0
+      rw [hnc, contract_eq_nest]
+      apply nest_congr_bounded
+      intro k hk
+      have := hleaf k hk
+      simp only [Nat.zero_mul, Nat.zero_add] at this ⊢
+      rw [this, if_pos hbm]
+    · rw [if_neg hbm]
+      rw [nest_congr_bounded (leaf' := fun _ => (1 : K))]
+      · exact nest_const _ _ _ hpu
+      · intro k hk
+        have := hleaf k hk
+        simp only [Nat.zero_mul, Nat.zero_add] at this ⊢
+        rw [this, if_neg hbm]
+  unfold nurbsValue
+  rw [List.range_succ, List.map_append]
+  simp only [List.map_cons, List.map_nil, List.getLastD_concat, List.dropLast_concat, List.map_map]
+  apply List.map_congr_left
+  intro b hb
+  have hb' : b < m := List.mem_range.1 hb
+  simp only [Function.comp]
+  rw [key b (by omega), key m (Nat.le_refl m), if_pos hb', if_neg (Nat.lt_irrefl m), div_one]
+
 
 /-! ## 4. circular arcs lie on exact circles -/
 
